@@ -1158,14 +1158,72 @@ func ruleR25(c *Ctx) {
 					}
 				}
 			}
+			how := ""
+			if !ok {
+				// hand-shake shape: the writing closure first ranges over the variable and sends on /
+				// closes every element (each reader obtained its channel from the variable and is
+				// parked on it), and only then replaces the variable
+				for l := range lits {
+					if handshakeBeforeWrite(p, l, v) {
+						ok = true
+						how = "; the write is preceded by a range over " + v.Name() + " that sends on / closes every element (channel hand-shake with every reader before the variable is replaced)"
+					}
+				}
+			}
 			c.Check(ok, f, f.Body, "captured local "+v.Name()+" ("+typeString(v.Type())+")",
 				"a local variable written inside a closure that escapes to other goroutines (stored in an action, returned, passed on) is accessed atomically or under a lock everywhere",
-				fmt.Sprintf("%d escaping closures reference %s; written in a closure; all accesses atomic: %v", len(lits), v.Name(), allAtomic))
+				fmt.Sprintf("%d escaping closures reference %s; written in a closure; all accesses atomic: %v%s", len(lits), v.Name(), allAtomic, how))
 		}
 	}
 	if n == 0 {
 		c.Missing("captured written locals", "no local variable is written inside an escaping closure any more (the event-based gateway's winner flag / channel map are expected here)")
 	}
+}
+
+func handshakeBeforeWrite(p *Prog, l *FuncInfo, v *types.Var) bool {
+	in := info(l)
+	var write *ast.AssignStmt
+	ast.Inspect(l.Body, func(m ast.Node) bool {
+		if as, ok := m.(*ast.AssignStmt); ok {
+			for _, lhs := range as.Lhs {
+				if id, ok := unparen(lhs).(*ast.Ident); ok && in.Uses[id] == types.Object(v) {
+					write = as
+				}
+			}
+		}
+		return true
+	})
+	if write == nil {
+		return false
+	}
+	ok := false
+	ast.Inspect(l.Body, func(m ast.Node) bool {
+		rs, isR := m.(*ast.RangeStmt)
+		if !isR || rs.End() > write.Pos() {
+			return true
+		}
+		id, isId := unparen(rs.X).(*ast.Ident)
+		if !isId || in.Uses[id] != types.Object(v) || rs.Value == nil {
+			return true
+		}
+		val := objOf(in, rs.Value)
+		// same statement list as the write (the loop is not conditional relative to the write)
+		if p.Parent(rs) != p.Parent(write) {
+			return true
+		}
+		closes := false
+		ast.Inspect(rs.Body, func(z ast.Node) bool {
+			if call, isC := z.(*ast.CallExpr); isC && isBuiltin(in, call, "close") && len(call.Args) == 1 && objOf(in, call.Args[0]) == val {
+				closes = true
+			}
+			return true
+		})
+		if closes {
+			ok = true
+		}
+		return true
+	})
+	return ok
 }
 
 // escapes: the literal is stored (composite literal field, assignment, return,
